@@ -90,6 +90,11 @@ def run(ctx, report):
     from .c15 import copy_visit_rule
     copy_visit_rule(ctx, R8, only='copy')
 
+    from .. import exprobj
+    R11 = report.rule('C05.D11', 'the traversal the simplifier rides on: visit() of every node class, evaluated from the source, reaches every sub-expression (a rewrite of a segment selector, '
+                      'a slot or a condition is not dropped) -- shared with C15.D7', floor=40)
+    exprobj.emit_law(R11, ctx, 'visit-id')
+    exprobj.emit_law(R11, ctx, 'visit-rename')
     R9 = report.rule('C05.D9', 'the simplifier never modifies the expression it is given (shared with C13.D4)', floor=3)
     from .c13 import input_untouched_rule
     input_untouched_rule(ctx, R9)
